@@ -3,15 +3,11 @@
 //! Read the `windows` module for reference.
 
 use std::ffi::c_int;
-use std::io::{self, Write};
+use std::io::{self, BufRead, Write};
 use std::ptr::{self, NonNull, null_mut};
-use std::slice;
-
-use memchr_rs::memchr;
 
 use super::{ProcessRunner, Stdin, VirtualMemory, process_common};
 use crate::arena::{Arena, ArenaString};
-use crate::helpers::KIBI;
 use crate::process::{ProcessCaps, ProcessError, ProcessResult, ProcessSpec};
 use crate::runtime::Value;
 
@@ -128,46 +124,19 @@ impl Stdin for UnixStdin {
         print!("{prompt}");
         io::stdout().flush()?;
 
-        let mut cap = 8 * KIBI;
-        let mut buf = ArenaString::with_capacity_in(cap, arena);
-        let mut len = 0;
-
-        loop {
-            if len == cap {
-                cap *= 2;
-                buf.reserve_exact(cap - buf.capacity());
-            }
-
-            let count = cap - len;
-            let base = buf.as_ptr();
-
-            let n = unsafe {
-                libc::read(libc::STDIN_FILENO, base.add(len) as *mut libc::c_void, count)
-            };
-            if n < 0 {
-                return Err(io::Error::last_os_error());
-            }
-            if n == 0 {
-                // EOF
-                break;
-            }
-            let n = n.cast_unsigned();
-
-            len += n;
-
-            let hay = unsafe { slice::from_raw_parts(base, len) };
-            let index = memchr(b'\n', hay, len - n);
-            if index < len {
-                len = index;
-                break;
-            }
+        // Read through the process-wide buffered handle: one read(2) can deliver
+        // several lines (pipes, files), and whatever follows the first newline has
+        // to stay available for the next call. The buffer also grows with the
+        // line, so lines longer than one chunk are returned whole.
+        let mut line = std::vec::Vec::new();
+        io::stdin().lock().read_until(b'\n', &mut line)?;
+        if line.last() == Some(&b'\n') {
+            line.pop();
         }
 
-        unsafe {
-            buf.as_mut_vec().set_len(len);
-        }
-
-        Ok(buf)
+        let text = std::str::from_utf8(&line)
+            .map_err(|err| io::Error::new(io::ErrorKind::InvalidData, err))?;
+        Ok(ArenaString::from_str(arena, text))
     }
 }
 
